@@ -7,7 +7,7 @@
    outcome, registers related by the relocation, and the SAME cache afterwards (what is cached
    never mentions the stack).  Instances: modules without data, every Mach-O entry that does not
    defer to DWARF, and every DWARF row that compresses into a rule. *)
-From FH Require Import Consts Word X86 Unwinder DwarfRow Cfi X86Dwarf DwarfCb Macho MachoCb X86Unw WordFacts X86Exec ShiftFacts.
+From FH Require Import Consts Word X86 Unwinder DwarfRow Cfi X86Dwarf DwarfCb Macho MachoCb X86Unw WordFacts X86Exec ShiftFacts MachoWf.
 From Coq Require Import Lia ZifyBool ZifyN.
 Open Scope N_scope.
 Ltac Zify.zify_post_hook ::= Z.div_mod_to_equations.
@@ -197,11 +197,10 @@ Qed.
 (* ---- Mach-O: every entry that does not defer to DWARF *)
 Lemma cb_rel_macho (md : xmodule) d first rel rg rg' m :
   mdat md = MMacho d -> rrel rg rg' -> vok rg -> spok rg ->
-  (forall r, macho_cui rule x86_macho_unwind JustReturn JustReturn x86_stub_helper_rule d rel first = CuiRule r -> rule_wf r = true) ->
   (forall off, macho_cui rule x86_macho_unwind JustReturn JustReturn x86_stub_helper_rule d rel first <> CuiNeedDwarf off) ->
   cb_rel (cb_x86 md first rel rg m) (cb_x86 md first rel rg' (shm m)).
 Proof.
-  intros Hd Hr Hv Hs Hwf Hnd. unfold cb_x86. rewrite Hd. unfold cb_macho.
+  intros Hd Hr Hv Hs Hnd. pose proof (x86_macho_rules_wf d rel first) as Hwf. unfold cb_x86. rewrite Hd. unfold cb_macho.
   destruct (macho_cui rule x86_macho_unwind JustReturn JustReturn x86_stub_helper_rule d rel first) as [r|off|] eqn:E.
   - split; [reflexivity|]. cbn. split; [reflexivity | apply Hwf; reflexivity].
   - exfalso. apply (Hnd off). reflexivity.
@@ -211,6 +210,47 @@ End Frame.
 
 (* ------------------------------------------------------------------ aarch64: the same statement *)
 From FH Require Import A64 A64Dwarf A64Unw.
+
+Lemma row_step_rule_a rw first rg m r : translate_a64 rw = Some r -> row_step_a64 rw first rg m = CbRule r.
+Proof. intros H. unfold row_step_a64. rewrite H. reflexivity. Qed.
+
+Lemma slot_by_8_i16 off x l : slot_by_8 off x = Some l -> in_i16 l = true.
+Proof.
+  unfold slot_by_8, i64_to_i16. destruct (addi64c off x) as [sm|]; [|discriminate].
+  destruct (negb (Z.rem sm 8 =? 0)%Z); [discriminate|].
+  destruct (in_i16 (divz sm 8)) eqn:E; [|discriminate]. intros H; inversion H; subst. exact E.
+Qed.
+
+Lemma i64_to_u16_lt z k : i64_to_u16 z = Some k -> (k <? W16) = true.
+Proof.
+  unfold i64_to_u16, in_u16z. destruct ((0 <=? z)%Z && (z <? 65536)%Z) eqn:E; [|discriminate].
+  intros H; inversion H; subst. unfold W16. lia.
+Qed.
+
+Lemma translate_a64_wf rw r : translate_a64 rw = Some r -> arule_wf r = true.
+Proof.
+  unfold translate_a64.
+  repeat match goal with
+         | |- context [match ?x with _ => _ end] => destruct x eqn:?; try discriminate
+         end;
+  intros H; inversion H; subst; cbn [arule_wf]; try reflexivity;
+  repeat match goal with
+         | Hs : slot_by_8 _ _ = Some _ |- _ => apply slot_by_8_i16 in Hs
+         | Hu : i64_to_u16 _ = Some _ |- _ => apply i64_to_u16_lt in Hu
+         end;
+  repeat match goal with Hx : _ = true |- _ => rewrite Hx end; reflexivity.
+Qed.
+
+Lemma with_fde_rel_a f svma first rg rg' m m' :
+  (forall rw, row_for_address f svma = Some rw -> translate_a64 rw <> None) ->
+  exists r, with_fde arule aregs row_step_a64 uncovered_rule_a64 f svma first rg m = CbRule r /\
+            with_fde arule aregs row_step_a64 uncovered_rule_a64 f svma first rg' m' = CbRule r /\ arule_wf r = true.
+Proof.
+  intros H. unfold with_fde. destruct (row_for_address f svma) as [rw|] eqn:E.
+  - specialize (H rw eq_refl). destruct (translate_a64 rw) as [r|] eqn:Et; [|contradiction].
+    exists r. rewrite !(row_step_rule_a rw _ _ _ r Et). repeat split. eapply translate_a64_wf; exact Et.
+  - exists uncovered_rule_a64. repeat split.
+Qed.
 Section FrameA.
 Variables lo hi s : N.
 Hypothesis Hlo : 2 * DIST <= lo.
@@ -282,4 +322,48 @@ Lemma cb_rel_a_none (md : amodule) first rel rg rg' m :
   (mdat md = AMNone \/ mdat md = AMPe) -> arel rg rg' -> avok rg -> aspok rg ->
   cb_rel_a (cb_a64 md first rel rg m) (cb_a64 md first rel rg' (shm m)).
 Proof. intros [Hd|Hd] Hr Hv Hs; unfold cb_a64; rewrite Hd; (split; [reflexivity|]); cbn; auto. Qed.
+
+(* ---- DWARF modules all of whose rows compress *)
+Definition rows_compress_a (sec : list fde) : Prop :=
+  forall f svma rw, In f sec -> row_for_address f svma = Some rw -> translate_a64 rw <> None.
+
+Lemma cb_rel_a_dwarf (md : amodule) p sec first rel rg rg' m :
+  mdat md = AMDwarf p sec -> rows_compress_a sec -> arel rg rg' -> avok rg -> aspok rg ->
+  cb_rel_a (cb_a64 md first rel rg m) (cb_a64 md first rel rg' (shm m)).
+Proof.
+  intros Hd Hc Hr Hv Hs. unfold cb_a64. rewrite Hd. unfold cb_dwarf.
+  assert (W : forall f svma, In f sec ->
+            cb_rel_a (with_fde arule aregs row_step_a64 uncovered_rule_a64 f svma first rg m, dw_eff)
+                     (with_fde arule aregs row_step_a64 uncovered_rule_a64 f svma first rg' (shm m), dw_eff)).
+  { intros f svma Hin. destruct (with_fde_rel_a f svma first rg rg' m (shm m)) as (r & E1 & E2 & Ew).
+    - intros rw Hrw. exact (Hc f svma rw Hin Hrw).
+    - rewrite E1, E2. split; [reflexivity|]. cbn. split; [reflexivity | exact Ew]. }
+  assert (E : cb_rel_a (CbErr rg, dw_eff) (CbErr rg', dw_eff)) by (split; [reflexivity|]; cbn; auto).
+  destruct p.
+  - destruct (add64p S_dwarf_svma_add (base_svma md) rel) as [svma|e|pp|]; try exact E.
+    destruct (hdr_lookup sec svma) as [f|] eqn:Eh; [|exact E]. apply W. eapply hdr_lookup_in; exact Eh.
+  - destruct (index_build sec (base_svma md)) as [idx|] eqn:Ei; [|split; [reflexivity|]; cbn; auto].
+    destruct (index_lookup true idx rel) as [f|] eqn:El; [|exact E].
+    destruct (add64p S_dwarf_svma_add (base_svma md) rel) as [svma|e|pp|];
+      try (split; [reflexivity|]; cbn; split; reflexivity).
+    apply W. eapply index_lookup_in; eassumption.
+  - destruct (index_build sec (base_svma md)) as [idx|] eqn:Ei; [|split; [reflexivity|]; cbn; auto].
+    destruct (index_lookup true idx rel) as [f|] eqn:El; [|exact E].
+    destruct (add64p S_dwarf_svma_add (base_svma md) rel) as [svma|e|pp|];
+      try (split; [reflexivity|]; cbn; split; reflexivity).
+    apply W. eapply index_lookup_in; eassumption.
+Qed.
+
+(* ---- Mach-O: every entry that does not defer to DWARF (the rules the arm64 opcodes and the analysers give) *)
+Lemma cb_rel_a_macho (md : amodule) d first rel rg rg' m :
+  mdat md = AMMacho d -> arel rg rg' -> avok rg -> aspok rg ->
+  (forall off, macho_cui arule a64_macho_unwind ANoOp ANoOp a64_stub_helper_rule d rel first <> CuiNeedDwarf off) ->
+  cb_rel_a (cb_a64 md first rel rg m) (cb_a64 md first rel rg' (shm m)).
+Proof.
+  intros Hd Hr Hv Hs Hnd. pose proof (a64_macho_rules_wf d rel first) as Hwf. unfold cb_a64. rewrite Hd. unfold cb_macho.
+  destruct (macho_cui arule a64_macho_unwind ANoOp ANoOp a64_stub_helper_rule d rel first) as [r|off|] eqn:E.
+  - split; [reflexivity|]. cbn. split; [reflexivity | apply Hwf; reflexivity].
+  - exfalso. apply (Hnd off). reflexivity.
+  - split; [reflexivity|]. cbn. auto.
+Qed.
 End FrameA.
